@@ -46,8 +46,27 @@ Fixpoint reach (fuel : nat) (calls : list calledge) (seen : list string) (work :
       end
   end.
 
-(* an event of a thread: an access, with the region of RunFS it belongs to and all locks held (own + those
-   held at the call sites on the way; conservative: only the locks at the call edge out of the root) *)
+(* locks a function can rely on being held when it starts: the intersection, over all its call sites, of the
+   locks held there (at the site or inherited by the caller); nothing for the root and for functions nobody
+   calls.  Greatest fixed point by iteration from "all locks". *)
+Definition inter (a b : list string) : list string := filter (fun x => mem_s x b) a.
+Fixpoint dedups (l : list string) : list string :=
+  match l with [] => [] | x :: r => if mem_s x r then dedups r else x :: dedups r end.
+Definition lookup_inh (tbl : list (string * list string)) (k : string) : list string :=
+  match find (fun e => String.eqb k (fst e)) tbl with Some e => snd e | None => [] end.
+Definition inh_step (top : list string) (calls : list calledge) (root : string) (cur : list (string * list string))
+  : list (string * list string) :=
+  map (fun e => let k := fst e in
+                if String.eqb k root then (k, [])
+                else (k, fold_left (fun acc c => inter acc (e_locks c ++ lookup_inh cur (e_from c)))
+                                   (filter (fun c => String.eqb k (e_to c)) calls) top)) cur.
+Fixpoint iter_n {A} (n : nat) (f : A -> A) (x : A) : A := match n with 0 => x | S m => iter_n m f (f x) end.
+Definition inherited (calls : list calledge) (root : string) : list (string * list string) :=
+  let top := dedups (flat_map e_locks calls) in
+  iter_n (S (List.length calls)) (inh_step top calls root) (map (fun c => (e_to c, top)) calls).
+
+(* an event of a thread: an access, with the region of the root function it belongs to and all locks held
+   (its own, those its function inherits from all its callers, and those at the call edge out of the root) *)
 Record event := mkev { ev_acc : access; ev_region : region; ev_locks : list string }.
 
 Definition closure_accesses (accs : list access) (calls : list calledge) (root : string) : list access :=
@@ -57,9 +76,10 @@ Definition closure_accesses (accs : list access) (calls : list calledge) (root :
 (* events of the goroutine running [root]: its own accesses in the regions selected by [sel], and for every
    call edge out of it in a selected region, all accesses of the callee's closure *)
 Definition thread_events (accs : list access) (calls : list calledge) (root : string) (sel : region -> bool) : list event :=
+  let inh := inherited calls root in
   map (fun a => mkev a (a_region a) (a_locks a))
       (filter (fun a => String.eqb (a_fn a) root && sel (a_region a)) accs) ++
-  flat_map (fun e => map (fun a => mkev a (e_region e) (e_locks e ++ a_locks a))
+  flat_map (fun e => map (fun a => mkev a (e_region e) (e_locks e ++ a_locks a ++ lookup_inh inh (a_fn a)))
                          (closure_accesses accs calls (e_to e)))
            (filter (fun e => String.eqb (e_from e) root && sel (e_region e)) calls).
 
